@@ -23,6 +23,7 @@ func init() {
 		{Name: "will-properties-through-publish-encoder", Rule: "R2.1", Where: "Connect", Edits: []Edit{{"connect.go", "\t\t\ti += p.will.payloadFormat.fillProp(b, i, PayloadFormatIndicator)\n\t\t\ti += p.will.messageExpiryInterval.fillProp(b, i, MessageExpiryInterval)\n\t\t\ti += p.will.contentType.fillProp(b, i, ContentType)\n\t\t\ti += p.will.responseTopic.fillProp(b, i, ResponseTopic)\n\t\t\ti += p.will.correlationData.fillProp(b, i, CorrelationData)\n\t\t\ti += p.will.UserProperties.properties(b, i)\n", "\t\t\ti += p.will.properties(b, i)\n"}}},
 		{Name: "default-protocol-version-4", Rule: "R2.8", Where: "NewConnect#version", Edits: []Edit{{"connect.go", "\t\tprotocolVersion: 5,", "\t\tprotocolVersion: 4,"}}},
 		{Name: "default-protocol-name-v3", Rule: "R2.8", Where: "NewConnect#name", Edits: []Edit{{"connect.go", "var mqtt5 = []byte(\"MQTT\")", "var mqtt5 = []byte(\"MQIsdp\")"}}},
+		{Name: "auth-reason-code-without-property-length", Rule: "R2.5", Where: "Auth", Edits: []Edit{{"auth.go", "\ti += p.reasonCode.fill(b, i)\n\ti += vbint(proplen).fill(b, i)\n\ti += p.properties(b, i)\n\treturn i - n\n}\n\nfunc (p *Auth) properties", "\ti += p.reasonCode.fill(b, i)\n\tif proplen == 0 {\n\t\treturn i - n\n\t}\n\ti += vbint(proplen).fill(b, i)\n\ti += p.properties(b, i)\n\treturn i - n\n}\n\nfunc (p *Auth) properties"}}},
 		{Name: "reason-string-under-wrong-id", Rule: "R2.1", Where: "Auth", Edits: []Edit{{"auth.go", "\ti += p.reasonString.fillProp(b, i, ReasonString)", "\ti += p.reasonString.fillProp(b, i, ServerReference)"}}},
 		{Name: "remaining-length-omits-properties", Rule: "R2.4", Where: "ConnAck", Edits: []Edit{{"connack.go", "\ti += vbint(p.variableHeader(_LEN, 0)).fill(b, i) // remaining length", "\ti += vbint(2).fill(b, i) // remaining length"}}},
 		{Name: "property-length-omits-user-properties", Rule: "R2.4", Where: "Publish", Edits: []Edit{
@@ -431,6 +432,11 @@ func (w *specWalk) walk(code int64) {
 			if sf.Optional == "props" || sf.Optional == "reason|props" {
 				if present && !reasonPresent {
 					w.fail("R2.5", "a property length is written although the reason code was left out")
+				}
+				if sf.Optional == "reason|props" && reasonPresent && !present {
+					// §3.15.2.1: AUTH may leave out reason code and property length only together (remaining length 0);
+					// the short form "reason code alone" exists for the PUBACK family and DISCONNECT, not here
+					w.fail("R2.5", "the reason code is written without a property length after it: for this packet type the specification allows leaving out both together only")
 				}
 				_ = n
 			}
